@@ -3,6 +3,7 @@ package node
 import (
 	"fmt"
 	"net"
+	"reflect"
 	"strings"
 	"sync"
 	"testing"
@@ -22,7 +23,7 @@ import (
 type seg struct {
 	kind  string // valid-raw valid-debug badcrc badsig junk
 	bytes []byte
-	idx   int // for valid ones
+	idx   int  // for valid ones
 	own   bool // the sender uses the node's own system / component id
 }
 
@@ -171,6 +172,14 @@ func drawScript(t *rapid.T, tag byte, withDialect bool, key *[32]byte, maxSeg in
 			out = append(out, seg{kind: k, bytes: f.Bytes()})
 		case "unsigned":
 			f := tagged(tag, 9997, "raw", true, nil, 0)
+			if id := rapid.SampledFrom([]uint32{0, 0, 109, 166, 0}).Draw(t, "unsigned_message"); id != 0 && withDialect && lay(id) != nil {
+				// the status reports a telemetry radio puts on the link (RADIO_STATUS, RADIO) are frames like all others:
+				// unsigned, they do not pass a node that has an incoming key - in either protocol version
+				l := lay(id)
+				f = ref.Frame{V2: rapid.Bool().Draw(t, "unsigned_v2"), Seq: byte(idx), Sys: 51, Comp: 68, ID: id}
+				f.Payload = l.Encode(reflect.New(l.Type).Interface(), f.V2)
+				f.Checksum = f.ChecksumFor(l.CRCExtra)
+			}
 			out = append(out, seg{kind: k, bytes: f.Bytes()})
 		case "unsigned-v1":
 			// a complete v1 frame (v1 cannot be signed) whose bytes happen to contain marker values: refused as a
